@@ -14,6 +14,9 @@ from symnp.core import And, Or, Sym, SymBool, SymError, as_z3, cur, lift
 from symnp.harness import Obligation, _default_neg, eq
 from props.common import dagger, prod
 
+from toqito.measurement_ops import measure
+from toqito.measurement_props import is_povm
+from toqito.measurements import pretty_bad_measurement, pretty_good_measurement
 from toqito.rand import (random_circulant_gram_matrix, random_density_matrix, random_ginibre, random_orthonormal_basis,
                          random_povm, random_psd_operator, random_state_vector, random_states, random_unitary)
 
@@ -224,7 +227,7 @@ RNG = RecordingRandom()
 def draw_pool(b, n):
     """the draws of one obligation: n fresh unconstrained reals named by draw index.  In translator validation the Builder hands
     out constants in [-2, 2]; they are mapped into [0, 1) so that the documented range of Generator.random holds there too."""
-    raw = draw_pool(b, n)
+    raw = b.array("draw", (n,), "r")
     if b.rnd is None:
         return raw
     return lifted(np.asarray([(v + 2) / 4.0625 for v in raw], dtype=object))
@@ -524,7 +527,7 @@ def ob_prov(fname, cfg, thunk, n_generators=1, pool_n=64, seed=SEED):
     def oracle(i):
         return [True, True, 0, True, True, 0]
     return Obligation("provenance.every_draw_from_default_rng_of_own_seed_no_global_state", cfg, build, call, oracle,
-                      neg=lambda e: [False] + list(e[1:]), rng=RNG, max_paths=64)
+                      neg=lambda e: [False] + list(e[1:]), rng=RNG, max_paths=1024)
 
 
 # ==================================================================================================================
@@ -1003,6 +1006,380 @@ def ob_povm(dim, ni, no):
                       valid=lambda ni_: float(np.linalg.norm(np.asarray(ni_["pool"], dtype=float))) > 1e-2)
 
 
+# ==================================================================================================================
+# (c) measurements
+# ==================================================================================================================
+def cj(x):
+    return x.conjugate() if hasattr(x, "conjugate") else np.conj(x)
+
+
+def sandwich(K, rho):
+    """K rho K^dagger with explicit loops"""
+    K, rho = np.asarray(K), np.asarray(rho)
+    m, d = K.shape
+    out = np.empty((m, m), dtype=object)
+    for a in range(m):
+        for c_ in range(m):
+            t = 0
+            for b_ in range(d):
+                for e in range(d):
+                    t = t + K[a, b_] * rho[b_, e] * cj(K[c_, e])
+            out[a, c_] = t
+    return out if core._CTX else np.array(out.tolist(), dtype=complex)
+
+
+def completeness(Ks):
+    """sum_i K_i^dagger K_i with explicit loops"""
+    d = np.asarray(Ks[0]).shape[1]
+    out = np.empty((d, d), dtype=object)
+    for a in range(d):
+        for b_ in range(d):
+            t = 0
+            for K in Ks:
+                K = np.asarray(K)
+                for m in range(K.shape[0]):
+                    t = t + cj(K[m, a]) * K[m, b_]
+            out[a, b_] = t
+    return out if core._CTX else np.array(out.tolist(), dtype=complex)
+
+
+def re_part(x):
+    return x.real if isinstance(x, Sym) else float(np.real(x))
+
+
+def density_verdict(rho):
+    """is_density's own verdict formula (Hermitian within allclose, eigvalsh >= -1e-8, trace isclose 1), no forking"""
+    rho = np.asarray(rho)
+    if core._CTX:
+        R = rho.view(SymArray)
+        herm = np.allclose(R, dagger(R).view(SymArray), rtol=1e-5, atol=1e-8)
+        ev = np.linalg.eigvalsh(R)
+        psd = And(*[lift(x) >= -1e-8 for x in np.asarray(ev)])
+        tr = lift(trace(rho))
+        d = tr - 1
+        close = (abs(d) <= 1e-8 + 1e-5) if d.im.t else And(d <= 1e-8 + 1e-5, -d <= 1e-8 + 1e-5)
+        return And(herm, psd, close)
+    herm = np.allclose(rho, rho.conj().T, rtol=1e-5, atol=1e-8)
+    return bool(herm and np.all(np.linalg.eigvalsh(rho) >= -1e-8) and np.isclose(np.trace(rho), 1))
+
+
+def within(S, bound):
+    """every entry of S - I within `bound` (real and imaginary part)"""
+    S = np.asarray(S)
+    conj = []
+    for a in range(S.shape[0]):
+        for b_ in range(S.shape[1]):
+            d = S[a, b_] - (1 if a == b_ else 0)
+            if isinstance(d, Sym):
+                conj += [d.real <= bound, -d.real <= bound, d.imag <= bound, -d.imag <= bound]
+            else:
+                conj.append(bool(abs(d) <= bound))
+    return And(*conj)
+
+
+def ob_measure(d, r, form, su, m=None):
+    """form: 'single' | 'list' | 'tuple'; su = state_update; K_i of shape m x d (m = d by default)"""
+    m = m or d
+    cfg = {"d": d, "n_ops": r, "form": form, "state_update": su, "op_rows": m}
+    TOL = 1e-10
+
+    def build(b):
+        return {"rho": b.array("rho", (d, d), "h"), "K": [b.array(f"K{j}", (m, d), "c") for j in range(r)]}
+
+    def call(i):
+        rho, Ks = i["rho"], list(i["K"])
+        meas = Ks[0] if form == "single" else (Ks if form == "list" else tuple(Ks))
+        out = measure(rho, meas, state_update=su)
+        outs = [out] if form == "single" else list(out)
+        got, want, norm_tr, gate = [], [], [], (su and form != "single")
+        for K, o in zip(Ks, outs):
+            R = sandwich(K, rho)
+            pw = re_part(trace(R))                 # Born rule: Re Tr(K rho K^dagger)
+            if su:
+                gp, gs = o
+                gs = as_arr(gs)
+                if pw > TOL:
+                    ws = np.asarray(R) / pw
+                    norm_tr.append(trace(gs))      # normalised post-measurement state
+                else:
+                    ws = np.zeros((d, d))
+                    gate = False
+                got.append([gp, gs])
+                want.append([pw, ws])
+            else:
+                got.append([o])
+                want.append([pw])
+        S = completeness(Ks)
+        tot = 0
+        for g in got:
+            tot = tot + g[0]
+        return [[got, tot, norm_tr], [want, re_part(trace(np.asarray(rho) @ np.asarray(S))), [1] * len(norm_tr)], [bool(gate), S],
+                type(out).__name__]
+
+    def post(res, exp, i):
+        (got, tot, ntr), (want, wtot, wntr), (gate, S), tname = res
+        want = maybe_neg(exp, want) if exp != MARK else want
+        ok = And(eq(got, want), eq(tot, wtot), eq(ntr, wntr))
+        if gate:      # complete check was performed and passed: sum K^dagger K = I within (a generous multiple of) the tolerance
+            ok = And(ok, within(S, 1e-4))
+        return ok
+
+    def neg(e):
+        return "negative-control"
+
+    def exc_post(e, i):
+        if not isinstance(e, ValueError):
+            return False
+        if "density" in str(e):
+            v = density_verdict(i["rho"])
+            return ~v if isinstance(v, SymBool) else (not v)
+        if "completeness" in str(e) and su and form != "single":
+            ex = eq(completeness(list(i["K"])), np.identity(d))
+            return ~ex if isinstance(ex, SymBool) else (not ex)
+        return False
+    return Obligation("measure.born_rule_post_state_total_and_guards", cfg, build, call, marker_oracle, post=post, neg=neg,
+                      exc_post=exc_post, max_paths=600, weight=4 * r * d, tv=False)
+
+
+def ob_measure_complete_family(d, su):
+    """a complete family by construction: K0 = diag(1,..,1,c), K1 = s |0><d-1| with c^2 + s^2 = 1: accepted, probabilities sum to Tr rho"""
+    cfg = {"d": d, "state_update": su, "family": "K0=diag(1,..,1,c), K1=s|0><d-1|, c*c+s*s=1"}
+
+    def build(b):
+        return {"rho": b.array("rho", (d, d), "h"), "c": b.real("c"), "s": b.real("s")}
+
+    def ks(i):
+        K0 = np.zeros((d, d), dtype=object)
+        K1 = np.zeros((d, d), dtype=object)
+        for k in range(d):
+            K0[k, k] = 1 if k < d - 1 else i["c"]
+        K1[0, d - 1] = i["s"]
+        if core._CTX:
+            return [lifted(K0), lifted(K1)]
+        return [np.array(K0.tolist(), dtype=float), np.array(K1.tolist(), dtype=float)]
+
+    def call(i):
+        rho = i["rho"]
+        if core._CTX:
+            E = i["c"] * i["c"] + i["s"] * i["s"] - 1
+            if _once("complete_family_lemma"):
+                lemma_mul(E, [np.asarray(rho)[d - 1, d - 1]], hyp=False)
+        out = measure(rho, ks(i), state_update=su)
+        tot = 0
+        for o in out:
+            tot = tot + (o[0] if su else o)
+        return [tot]
+
+    def oracle(i):
+        return [re_part(trace(np.asarray(i["rho"])))]
+
+    def assume(i):
+        return [(i["c"] * i["c"] + i["s"] * i["s"]).eq_solver(1)]
+
+    def valid(ni):
+        return abs(ni["c"] ** 2 + ni["s"] ** 2 - 1) < 1e-12
+
+    def exc_post(e, i):
+        # only the density-matrix rejection is legitimate here: the family is complete
+        if isinstance(e, ValueError) and "density" in str(e):
+            v = density_verdict(i["rho"])
+            return ~v if isinstance(v, SymBool) else (not v)
+        return False
+    return Obligation("measure.complete_family_accepted_probabilities_sum_to_trace", cfg, build, call, oracle, assume=assume,
+                      valid=valid, exc_post=exc_post, tv=False, neg_control=True, max_paths=600)
+
+
+def ob_measure_incomplete_rejected(d, r):
+    """docstring: ':raises ValueError: If a list of operators does not satisfy the completeness relation' (state_update=True).
+    For a set that misses completeness by a margin the call must not return normally."""
+    cfg = {"d": d, "n_ops": r, "state_update": True, "margin": 1e-3}
+
+    def build(b):
+        return {"rho": b.array("rho", (d, d), "h"), "K": [b.array(f"K{j}", (d, d), "c") for j in range(r)]}
+
+    def call(i):
+        measure(i["rho"], list(i["K"]), state_update=True)
+        return [True]        # returned normally
+
+    def oracle(i):
+        return [False]
+
+    def assume(i):
+        S = np.asarray(completeness(list(i["K"])))
+        far = []
+        for a in range(d):
+            for b_ in range(d):
+                dlt = S[a, b_] - (1 if a == b_ else 0)
+                far += [dlt.real > 1e-3, dlt.real < -1e-3, dlt.imag > 1e-3, dlt.imag < -1e-3]
+        return [Or(*far)]
+
+    def valid(ni):
+        S = completeness(list(ni["K"]))
+        return bool(np.max(np.abs(S - np.identity(d))) > 1e-3)
+
+    def exc_post(e, i):
+        return isinstance(e, ValueError)
+
+    def witness():
+        rho = np.zeros((d, d))
+        rho[0, 0] = 1.0
+        K = [np.zeros((d, d), dtype=complex) for _ in range(r)]
+        K[0][0, 0] = 1.0
+        if r > 1:
+            K[1][d - 1, d - 1] = 0.5
+        return [{"rho": rho, "K": K}]
+    return Obligation("measure.incomplete_kraus_list_is_rejected_when_state_update", cfg, build, call, oracle, assume=assume,
+                      valid=valid, exc_post=exc_post, witness=witness, tv=False, neg_control=False, max_paths=600)
+
+
+# ---- pretty good / pretty bad measurement ------------------------------------------------------------------------
+def sp_fmp_contract(a, t):
+    """fractional_matrix_power as an uninterpreted kernel; with contract 'fmp_inv_sqrt' and exponent -1/2:
+    R P R = I, and R Hermitian when P is (structurally) Hermitian"""
+    if not has_sym(a):
+        return sp_fmp(a, t)
+    R = sp_fmp(a, t)
+    if not want_contract("fmp_inv_sqrt") or t != -0.5:
+        return R
+    L = lifted(sarr(a))
+    n = L.shape[0]
+    herm = all(L[i, j].key() == L[j, i].conjugate().key() for i in range(n) for j in range(n))
+    Rm = np.asarray(R)
+    if herm:
+        H = np.empty((n, n), dtype=object)
+        for i in range(n):
+            for j in range(n):
+                H[i, j] = Rm[i, j] if i < j else (Rm[j, i].conjugate() if i > j else Rm[i, i].real)
+        Rm = H
+    if _once(("fmp", L.key())):
+        side_eq(Rm @ np.asarray(L) @ Rm, np.identity(n, dtype=object))
+        cur().stubs.add("contract fractional_matrix_power(P, -1/2) = R: R P R = I; R Hermitian for Hermitian P (P positive definite: "
+                        "the ensemble spans the space)")
+    return Rm.view(SymArray)
+
+
+SCIPY_LINALG_OVERRIDES["fractional_matrix_power"] = sp_fmp_contract
+
+
+def ob_pgm(d, n, form, priors, bad=False):
+    """form: 'vec' (d,), 'col' (d,1), 'dm' (density operators A A^dagger given by their factor); priors: 'uniform' (None) | 'sym'"""
+    cfg = {"d": d, "n_states": n, "state_form": form, "priors": priors}
+
+    def build(b):
+        if form == "dm":
+            st = [b.array(f"A{j}", (d, d), "c") for j in range(n)]
+        else:
+            st = [b.array(f"v{j}", (d,) if form == "vec" else (d, 1), "c") for j in range(n)]
+        return {"st": st, "p": [b.real(f"p{j}") for j in range(n)] if priors == "sym" else None}
+
+    def factors(i):
+        return [np.asarray(x).reshape(d, -1) for x in i["st"]]
+
+    def call(i):
+        fs = factors(i)
+        if form == "dm":
+            states = [(f @ dagger(f)) for f in fs]
+            states = [x.view(SymArray) if core._CTX else np.array(x.tolist(), dtype=complex) for x in states]
+        else:
+            states = list(i["st"])
+        probs = i["p"]
+        fn = pretty_bad_measurement if bad else pretty_good_measurement
+        ops = fn(states, list(probs) if probs is not None else None)
+        ps = list(probs) if probs is not None else [1 / n] * n
+        P = None
+        for pj, f in zip(ps, fs):
+            t = pj * np.asarray(gram(f))
+            P = t if P is None else P + t
+        P = P.view(SymArray) if core._CTX else np.array(P.tolist(), dtype=complex)
+        R = np.asarray(sp_fmp_contract(P, -1 / 2) if core._CTX else __import__("scipy").linalg.fractional_matrix_power(P, -1 / 2))
+        # G_j = p_j (R A_j)(R A_j)^dagger : positive semidefinite for p_j >= 0
+        G = [pj * np.asarray(gram(R @ f)) for pj, f in zip(ps, fs)]
+        if bad:
+            want = []
+            for j in range(n):       # (I - G_j)/(n-1) = sum_{l != j} G_l / (n-1): a non-negative combination of PSD operators
+                t = None
+                for l in range(n):
+                    if l != j:
+                        t = G[l] if t is None else t + G[l]
+                want.append(t / (n - 1))
+        else:
+            want = G
+        tot = None
+        for o in ops:
+            tot = np.asarray(o) if tot is None else tot + np.asarray(o)
+        return [[[as_arr(o) for o in ops], tot], want]
+
+    def post(res, exp, i):
+        (ops, tot), want = res
+        want = maybe_neg(exp, want)
+        return And(len(ops) == n, eq(ops, list(want)), eq(tot, np.identity(d)))
+
+    def exc_post(e, i):
+        if not isinstance(e, ValueError) or i["p"] is None:
+            return False
+        tot = 0
+        for x in i["p"]:
+            tot = tot + x
+        dlt = tot - 1
+        if isinstance(dlt, Sym):
+            return Or(dlt > 1e-8 + 1e-5, -dlt > 1e-8 + 1e-5)
+        return bool(abs(dlt) > 1e-8 + 1e-5)
+    name = ("pretty_bad_measurement.elements_are_(I-G_j)/(n-1)_as_psd_combination_and_sum_to_identity" if bad else
+            "pretty_good_measurement.elements_p_j(R A_j)(R A_j)dag_and_sum_to_identity_under_RPR=I")
+    return Obligation(name, cfg, build, call, marker_oracle, post=post, neg=marker_neg, exc_post=exc_post,
+                      contracts=("fmp_inv_sqrt",), tv=True, max_paths=16, weight=d * d * n)
+
+
+def ob_pgm_len_mismatch(bad):
+    cfg = {"n_states": 2, "n_probs": 3}
+
+    def build(b):
+        return {"st": [b.array(f"v{j}", (2,), "c") for j in range(2)]}
+
+    def call(i):
+        (pretty_bad_measurement if bad else pretty_good_measurement)(list(i["st"]), [0.25, 0.25, 0.5])
+        return [True]
+
+    def oracle(i):
+        return [False]
+    return Obligation(("pretty_bad" if bad else "pretty_good") + "_measurement.rejects_length_mismatch", cfg, build, call, oracle,
+                      exc_post=lambda e, i: isinstance(e, ValueError), neg_control=False, tv=False)
+
+
+def ob_is_povm(d, n, kind):
+    """kind: 'h' Hermitian operators, 'c' arbitrary complex"""
+    cfg = {"d": d, "n_ops": n, "entries": kind}
+
+    def build(b):
+        return {"M": [b.array(f"M{j}", (d, d), kind) for j in range(n)]}
+
+    def call(i):
+        return [SymBool(bool(is_povm(list(i["M"]))))] if core._CTX else [bool(is_povm(list(i["M"])))]
+
+    def oracle(i):
+        Ms = [np.asarray(x) for x in i["M"]]
+        if core._CTX:
+            conj = []
+            for M in Ms:
+                Mv = M.view(SymArray)
+                conj.append(np.allclose(Mv, dagger(M).view(SymArray), rtol=1e-5, atol=1e-8))
+                conj += [lift(x) >= -1e-8 for x in np.asarray(np.linalg.eigvalsh(Mv))]
+            tot = Ms[0]
+            for M in Ms[1:]:
+                tot = tot + M
+            conj.append(np.allclose(np.identity(d), lifted(tot)))
+            return [And(*conj)]
+        ok = True
+        for M in Ms:
+            ok = ok and np.allclose(M, M.conj().T, rtol=1e-5, atol=1e-8) and bool(np.all(np.linalg.eigvalsh(M) >= -1e-8))
+        return [bool(ok and np.allclose(np.identity(d), sum(Ms)))]
+
+    def neg(e):
+        return [~e[0] if isinstance(e[0], SymBool) else (not e[0])]
+    return Obligation("is_povm.verdict_is_all_psd_and_sum_close_to_identity", cfg, build, call, oracle, neg=neg,
+                      objzeros=("toqito.measurement_props.is_povm",), max_paths=600, tv=False)
+
+
 def obligations(tier):
     T = tier == "thorough"
     obs = []
@@ -1015,6 +1392,15 @@ def obligations(tier):
                                lambda s, r=is_real: random_density_matrix(2, r, None, "haar", seed=s), seed=seed))
             obs.append(ob_prov("random_density_matrix", {"dim": 2, "is_real": is_real, "metric": "bures"},
                                lambda s, r=is_real: random_density_matrix(2, r, None, "bures", seed=s), n_generators=2, seed=seed))
+            obs.append(ob_prov("random_orthonormal_basis", {"dim": 2, "is_real": is_real}, lambda s, r=is_real: random_orthonormal_basis(2, r, seed=s), seed=seed))
+            obs.append(ob_prov("random_psd_operator", {"dim": 2, "is_real": is_real}, lambda s, r=is_real: random_psd_operator(2, r, seed=s), seed=seed))
+            obs.append(ob_prov("random_state_vector", {"dim": 2, "is_real": is_real, "k_param": 0}, lambda s, r=is_real: random_state_vector(2, r, 0, seed=s), seed=seed))
+            obs.append(ob_prov("random_state_vector", {"dim": [2, 3], "is_real": is_real, "k_param": 1},
+                               lambda s, r=is_real: random_state_vector([2, 3], r, 1, seed=s), seed=seed))
+        obs.append(ob_prov("random_ginibre", {"dim_n": 2, "dim_m": 3}, lambda s: random_ginibre(2, 3, seed=s), seed=seed))
+        obs.append(ob_prov("random_povm", {"dim": 2, "num_inputs": 2, "num_outputs": 2}, lambda s: random_povm(2, 2, 2, seed=s), seed=seed))
+        obs.append(ob_prov("random_states", {"n": 2, "d": 2}, lambda s: random_states(2, 2, seed=s), seed=seed))
+        obs.append(ob_prov("random_circulant_gram_matrix", {"dim": 3}, lambda s: random_circulant_gram_matrix(3, seed=s), seed=seed))
     # ---- random_density_matrix ---------------------------------------------------------------------------------
     for dim in dims:
         for is_real in (False, True):
@@ -1063,4 +1449,30 @@ def obligations(tier):
                 if ni == 2 and no == 3:
                     continue
                 obs.append(ob_povm(dim, ni, no))
+    # ---- measure -----------------------------------------------------------------------------------------------------------
+    for d in ([2, 3] if T else [2]):
+        for su in (False, True):
+            obs.append(ob_measure(d, 1, "single", su))
+            for r in ([1, 2, 3] if d == 2 else [2]):
+                obs.append(ob_measure(d, r, "list", su))
+            obs.append(ob_measure(d, 2, "tuple", su))
+            obs.append(ob_measure_complete_family(d, su))
+        obs.append(ob_measure(d, 2, "list", False, m=d + 1))
+        obs.append(ob_measure_incomplete_rejected(d, 2))
+    # ---- pretty good / pretty bad measurement, is_povm ---------------------------------------------------------------------
+    for d in ([2, 3] if T else [2]):
+        for n in ([2, 3, 4] if (T and d == 2) else [2, 3]):
+            for form in ("vec", "col", "dm"):
+                for priors in ("uniform", "sym"):
+                    if form == "dm" and (n > 2 or d > 2) and not T:
+                        continue
+                    obs.append(ob_pgm(d, n, form, priors))
+                    obs.append(ob_pgm(d, n, form, priors, bad=True))
+    obs.append(ob_pgm_len_mismatch(False))
+    obs.append(ob_pgm_len_mismatch(True))
+    for d, n in [(1, 2), (2, 1), (2, 2)] + ([(2, 3), (3, 2)] if T else []):
+        for kind in ("h", "c"):
+            if kind == "c" and d * n > 4:
+                continue
+            obs.append(ob_is_povm(d, n, kind))
     return obs
